@@ -282,6 +282,61 @@ func TestC07(t *testing.T) {
 		}
 	}
 
+	// enumeration: value-returning functions x body shapes. Every shape whose end can be reached without a return is rejected;
+	// a body ending in a return statement is accepted.
+	{
+		type shape struct{ name, body string }
+		rets := []struct{ sig, ret, use string }{
+			{"int", "return 1", "print(f())"},
+			{"(int, string)", "return 1, \"s\"", "ra, rb := f()\nprint(ra, rb)"},
+			{"error", "return nil", "print(f())"},
+		}
+		pres := []shape{{"none", ""}, {"print", "print(7)\n"}, {"nested-return", "if cv {\n@RET\n}\n"}}
+		lasts := []struct {
+			name, body, expect string
+		}{
+			{"empty", "", "reject"},
+			{"comment-only", "// nothing\n", "reject"},
+			{"blank-lines", "\n\n", "reject"},
+			{"print", "print(2)\n", "reject"},
+			{"assignment", "iv = 3\n", "reject"},
+			{"definition", "lz := 3\n", "reject"},
+			{"if-return", "if cv {\n@RET\n}\n", "reject"},
+			{"if-elif-return", "if cv {\n@RET\n} else if iv == 1 {\n@RET\n}\n", "reject"},
+			{"for-cond-return", "for cv {\n@RET\n}\n", "reject"},
+			{"for-clause-return", "for k := 0; k < 2; k++ {\n@RET\n}\n", "reject"},
+			{"switch-no-default", "switch iv {\ncase 1:\n@RET\n}\n", "reject"},
+			{"return-then-print", "@RET\nprint(2)\n", "reject"},
+			{"return", "@RET\n", "accept"},
+		}
+		n := 0
+		for _, rt := range rets {
+			for _, pre := range pres {
+				for _, last := range lasts {
+					for _, used := range []bool{true, false} {
+						n++
+						if !e.Mine(n) {
+							continue
+						}
+						body := strings.ReplaceAll(pre.body+last.body, "@RET", rt.ret)
+						src := c07Prelude + "func f() " + rt.sig + " {\n" + body + "}\n"
+						if used {
+							src += rt.use + "\n"
+						}
+						note := fmt.Sprintf("end-of-function:%s/%s/%s/used=%v", rt.sig, pre.name, last.name, used)
+						c := verdictCase{Kind: "verdict", Property: "C07", Files: map[string]string{"main.tsh": src}, Main: "main.tsh", Expect: last.expect, Note: note}
+						r.Eval()
+						r.NonTrivial(src, nil)
+						r.Class("end-of-function:" + last.expect)
+						if kind, msg := checkVerdict(c); kind != "" {
+							r.Violate(rep.Sig{"end-of-function": last.name, "pre": pre.name, "kind": kind}, note+": "+msg+"\n"+src, c)
+						}
+					}
+				}
+			}
+		}
+	}
+
 	checkRapid(t, r, func(t *rapid.T) {
 		tr := &c7tree{}
 		tr.top = tr.newBlk(nil, "top")
